@@ -52,9 +52,14 @@ def gen(ctx):
     nl = int(rng.integers(6, 14))
     sig = rng.choice(['none', 'none', 'linear', 'exp', 'sqrt', 'sq', 'array'])
     sigma = None if sig == 'none' else (rng.uniform(0.5, 2.0, size=nl).tolist() if sig == 'array' else str(sig))
+    from scipy.spatial.distance import pdist
+    dmax = float(pdist(coords).max())
+    ml = rng.choice(['none', 'none', 'ratio', 'median', 'abs_above', 'abs_below'])
+    maxlag = {'none': None, 'ratio': float(rng.choice([0.6, 0.8])), 'median': 'median',
+              'abs_above': dmax * 1.5 + 1, 'abs_below': max(1.5, dmax * 0.7)}[str(ml)]
+    binf = str(rng.choice(['even', 'even', 'uniform', 'kmeans', 'sturges'])) if sig != 'array' else 'even'
     return dict(coords=coords.tolist(), values=values.tolist(), model=model, method=method, n_lags=nl,
-                use_nugget=bool(rng.random() < 0.5), fit_sigma=sigma, kind=kind,
-                maxlag=None if rng.random() < 0.6 else float(rng.choice([0.6, 0.8])))
+                use_nugget=bool(rng.random() < 0.5), fit_sigma=sigma, kind=kind, maxlag=maxlag, bin_func=binf)
 
 
 def objective(f, x, y, sigma, p):
@@ -72,7 +77,7 @@ def check_case(ctx, case):
         with quiet():
             V = Variogram(np.array(case['coords']), np.array(case['values']), model=case['model'],
                           fit_method=case['method'], n_lags=case['n_lags'], use_nugget=case['use_nugget'],
-                          fit_sigma=case['fit_sigma'], maxlag=case['maxlag'])
+                          fit_sigma=case['fit_sigma'], maxlag=case['maxlag'], bin_func=case.get('bin_func', 'even'))
             cof = None if V.cof is None else [float(c) for c in V.cof]
             edges = np.asarray(V.bins, float)
             exp = np.asarray(V.experimental, float)
@@ -149,6 +154,17 @@ def check_case(ctx, case):
         ctx.lean.ask(['c05', 'sigma', case['fit_sigma'], floatbits(xrel)], cbs)
     if case['method'] == 'trf':
         names = case['model'].split('+')
+        # documented bounds, stated directly (independent of the model): range <= largest lag edge, sill <=
+        # largest experimental value, shape <= 2, smoothness <= 20, nugget <= 0.99 * largest experimental value
+        doc = []
+        for nme in names:
+            doc += [float(np.nanmax(edges)), float(np.nanmax(exp))] + ([2.0] if nme == 'stable' else [20.0] if nme == 'matern' else [])
+        if case['use_nugget']:
+            doc.append(0.99 * float(np.nanmax(exp)))
+        if len(doc) == len(cof) and any(c < -1e-12 or c > u * (1 + 1e-9) + 1e-300 for c, u in zip(cof, doc)):
+            ctx.violation('out-of-bounds', 'fitted parameters %r leave the documented bounds [0, %r] (largest lag edge %r, '
+                          'largest experimental value %r)' % (cof, doc, float(np.nanmax(edges)), float(np.nanmax(exp))), case)
+            return
 
         def cbb(f):
             ub = [float(v) for v in parse_nums(f[0])]
@@ -171,7 +187,7 @@ def check_case(ctx, case):
     p0 = call['p0'] if call['p0'] is not None else np.ones(len(cof))
     obj0 = objective(f, x, y, sg, p0)
     scale = max(obj, 1e-12)
-    if obj > obj0 * (1 + 1e-9) + 1e-12:
+    if obj > obj0 * (1 + 1e-6) + 1e-12:
         ctx.violation('worse-than-start', 'objective at the result %r > at the initial guess %r' % (obj, obj0), case)
         return
     if case['method'] == 'trf':
